@@ -451,7 +451,7 @@ func reifyGetField(
 		value = nil
 	}
 
-	if isNil(value) {
+	if isNilRef(opts.opts, value) {
 		// When fieldType is a pointer and the value is nil, return nil as the
 		// underlying type should not be allocated.
 		if fieldType.Kind() == reflect.Ptr {
@@ -962,7 +962,7 @@ func reifyPrimitive(
 	t, baseType reflect.Type,
 ) (reflect.Value, Error) {
 	// zero initialize value if val==nil
-	if isNil(val) {
+	if isNilRef(opts.opts, val) {
 		v := tryInitDefaults(pointerize(t, baseType, reflect.Zero(baseType)))
 		{
 			// the default (or the zero value standing in for an explicit null
@@ -1096,7 +1096,8 @@ func reifyDuration(
 	var d time.Duration
 	var err error
 
-	switch v := val.(type) {
+	// a reference to a number is the number
+	switch v := unref(opts.opts, val).(type) {
 	case *cfgInt:
 		if v.i > maxDurationSeconds || v.i < -maxDurationSeconds {
 			return reflect.Value{}, raiseInvalidDuration(val, ErrOverflow)
